@@ -185,6 +185,9 @@ func (x *Exec) havocAll(st *State) {
 		if strings.HasPrefix(h, "G$") && x.immutableGlobal(h) {
 			continue
 		}
+		if strings.HasPrefix(h, "GH$lock$") {
+			continue // a callee releases what it acquires: the locks this function holds are unchanged
+		}
 		st.Heaps[h] = x.declare(h+"@h", x.S.heaps[h])
 		x.noteWrite(h)
 	}
